@@ -798,35 +798,21 @@ Proof.
   destruct (i2c_probe_recv_inv _ _ _ _ _ Er x eq_refl) as (f & Hf & V & F). exists f, x. auto.
 Qed.
 
-(* the probe leaves the interface state alone and writes (at most once) a frame carrying the
-   CURRENT counter value - the number of the last request *)
+(* the probe, like a request, advances the counter by one modulo 64 - whatever its outcome -
+   and its frame carries the new value *)
 Lemma i2c_probe_seq view wire st a s out st' sent rest :
   (forall tx, nth 4 (wire tx) 0 = nth 4 tx 0) ->
   i2c_probe view wire st a s = (out, st', sent, rest) ->
-  st' = st /\ forall f, In f sent -> nth 4 f 0 / 4 = i_next_seq st.
+  i_next_seq st' = inc_seq (i_next_seq st) /\ i_max_retries st' = i_max_retries st /\
+  i_slave st' = i_slave st /\
+  forall f, In f sent -> nth 4 f 0 / 4 = inc_seq (i_next_seq st).
 Proof.
   intros Hw. unfold i2c_probe.
   destruct (encode_ipmb_msg (probe_header st a) []) as [tx|e] eqn:Ee.
-  - assert (B : forall f, In f [wire tx] -> nth 4 f 0 / 4 = i_next_seq st).
+  - assert (B : forall f, In f [wire tx] -> nth 4 f 0 / 4 = inc_seq (i_next_seq st)).
     { intros f [<-|[]]. rewrite Hw. apply encode_ipmb_msg_byte4 in Ee. rewrite Ee.
       cbn [probe_header rq_seq rq_lun]. apply seq_field. }
     destruct (i2c_probe_recv view (probe_header st a) s) as [r s1].
-    destruct r; intros E; injection E as _ <- <- _; auto.
-  - intros E. injection E as _ <- <- _. split; [reflexivity | intros f []].
-Qed.
-
-(* a request never carries the number of the frame written before it (request or probe):
-   the counter always equals the number last written, and the request uses counter + 1 *)
-Lemma inc_seq_differs n : inc_seq n <> n.
-Proof. unfold inc_seq. lia. Qed.
-
-(* known finding (probe after request): the probe re-uses the request's number *)
-Lemma probe_reuses_request_number :
-  exists st r s1 a s2 out1 st1 f1 rest1 out2 st2 f2 rest2,
-    ipmbdev_send_receive st r s1 = (out1, st1, [f1], rest1) /\
-    i2c_probe ipmbdev_view ipmbdev_wire st1 a s2 = (out2, st2, [f2], rest2) /\
-    nth 4 f1 0 / 4 = nth 4 f2 0 / 4 /\ f1 = f2.
-Proof.
-  exists (mkI2c 0 1 0x20), (mkRq 0x72 [] 0 6 1 []), [Frame f4_other; Nothing], 0x72, [Nothing].
-  do 8 eexists. repeat split; vm_compute; reflexivity.
+    destruct r; intros E; injection E as _ <- <- _; cbn; auto.
+  - intros E. injection E as _ <- <- _. cbn. repeat split. intros f [].
 Qed.
